@@ -189,52 +189,9 @@ def rule_2(ctx):
 
 
 def rule_3(ctx):
-    em = ctx.mod('evaluator')
-    n_sites = 0
-    for m in ctx.repo.modules.values():
-        for qual, fn in m.funcs.items():
-            for c in flow.calls_in(fn):
-                if isinstance(c.func, ast.Attribute) and c.func.attr == 'evaluate' and c.args:
-                    # receiver must be an evaluator-like object (self.evaluator / evaluator)
-                    recv = ast.unparse(c.func.value)
-                    if 'evaluator' not in recv.lower() and recv != 'self':
-                        continue
-                    if m.name not in ('evaluator', 'ast_nodes'):
-                        continue
-                    n_sites += 1
-                    ctx_arg = None
-                    if len(c.args) > 1:
-                        ctx_arg = c.args[1]
-                    for kw in c.keywords:
-                        if kw.arg == 'context':
-                            ctx_arg = kw.value
-                    ok = ctx_arg is None or (isinstance(ctx_arg, ast.Constant) and ctx_arg.value is None)
-                    ctx.expect(ok, c, f'nested evaluate({ast.unparse(c.args[0])}, ...) gets a fresh context',
-                               f'a nested cell is evaluated with the caller\'s context `{ast.unparse(ctx_arg) if ctx_arg is not None else ""}`: '
-                               'unqualified references in it resolve against the wrong sheet and the per-cell memo is shared')
-    ev = em.func('Evaluator.evaluate')
-    # the context used for ast.eval derives from _get_context(<address of the cell>)
-    gc = [c for c in flow.calls_in(ev) if isinstance(c.func, ast.Attribute) and c.func.attr == '_get_context']
-    params = func_params(ev)
-    deps = flow.Deps(ev)
-    cells_sub = [n for n in walk_local(ev) if isinstance(n, ast.Subscript) and isinstance(n.value, ast.Attribute)
-                 and n.value.attr == 'cells']
-    key_names = set()
-    for s_ in cells_sub:
-        key_names |= names_in(s_.slice)
-    for c in gc:
-        ok = bool(c.args) and names_in(c.args[0]) <= key_names and bool(names_in(c.args[0]))
-        ctx.expect(ok, c, '_get_context(address of the evaluated cell)',
-                   'the evaluation context is not built from the address of the cell being evaluated')
-    g = em.func('Evaluator._get_context')
-    cons = [c for c in flow.calls_in(g) if ctx.res.resolve(c.func, em) == 'pkg:evaluator:EvaluatorContext']
-    ok = len(cons) == 1 and len(cons[0].args) >= 2 and isinstance(cons[0].args[1], ast.Name) \
-        and cons[0].args[1].id == func_params(g)[1]
-    ctx.expect(ok, g, '_get_context forwards its ref', '_get_context does not construct the context from its ref argument')
-    init = em.func('EvaluatorContext.__init__')
-    sup = [c for c in flow.calls_in(init) if isinstance(c.func, ast.Attribute) and c.func.attr == '__init__']
-    ok = bool(sup) and any(isinstance(a, ast.Name) and a.id == 'ref' for a in sup[0].args + [k.value for k in sup[0].keywords])
-    ctx.expect(ok, init, 'EvaluatorContext forwards ref to EvalContext', 'ref is not passed to EvalContext.__init__')
+    """One context per evaluated cell, its sheet taken from the cell's own address: the context constructor on witness addresses,
+    RangeNode.full_address under witness contexts, and lemma L3 (the same node under three contexts in one world). That nested
+    cells are evaluated in a context of their own is decided end to end by the cross-sheet chains of C03.9."""
     am = ctx.mod('ast_nodes')
     binit = am.func('EvalContext.__init__')
     pb = func_params(binit)
@@ -266,9 +223,7 @@ def rule_3(ctx):
                    '(unqualified references take the sheet of the evaluating context, qualified ones keep theirs, $ is dropped)')
     from . import corelemma
     corelemma.rule_address_per_evaluation(ctx)
-    ctx.floor(11, 'evaluate call sites + context construction chain + address witnesses')
-    if n_sites < 1:
-        ctx.errors.append('C03.3: no nested evaluate() call site found')
+    ctx.floor(8, 'context construction + address witnesses')
 
 
 def rule_4(ctx):
@@ -324,65 +279,27 @@ def _attr_type(ctx, cref, attr):
 
 
 def rule_5(ctx):
-    mm = ctx.mod('model')
-    br = mm.func('ModelCompiler.build_ranges')
-    stores = [n for n in walk_local(br) if isinstance(n, ast.Assign) and any(
-        isinstance(t, ast.Subscript) and isinstance(t.value, ast.Attribute) and t.value.attr == 'ranges' for t in n.targets)]
-    if not stores:
-        raise AnchorMissing('build_ranges: store into model.ranges')
-    deps = flow.Deps(br)
-    for s_ in stores:
-        t = next(t for t in s_.targets if isinstance(t, ast.Subscript))
-        key = t.slice
-        src = deps.closure(names_in(key))
-        from_terms = any(isinstance(n, ast.For) and any(isinstance(x, ast.Attribute) and x.attr == 'terms' for x in ast.walk(n.iter))
-                         and names_in(n.target) & src for n in walk_local(br))
-        ctx.expect(from_terms, s_, 'range registry key = formula term',
-                   'ranges are registered under a key that is not the (qualified, $-free) formula term')
-        # constructed range object uses the same text
-        ok = isinstance(s_.value, ast.Call) and s_.value.args and ast.dump(s_.value.args[0]) == ast.dump(key)
-        ctx.expect(ok, s_, 'XLRange built from its own key', 'the registered XLRange is built from a different text than its key')
-    qual = [n for n in walk_local(br) if isinstance(n, ast.If) and any(
-        isinstance(c, ast.Compare) and isinstance(c.ops[0], ast.NotIn) and isinstance(c.left, ast.Constant) and c.left.value == '!'
-        for c in ast.walk(n.test))]
-    ctx.expect(bool(qual), br, 'unqualified range terms get a sheet', 'range terms without a sheet are not qualified before registration')
-    # blank member cells are created
-    creates = [n for n in walk_local(br) if isinstance(n, ast.Assign) and any(
-        isinstance(t, ast.Subscript) and isinstance(t.value, ast.Attribute) and t.value.attr == 'cells' for t in n.targets)]
-    ctx.expect(bool(creates), br, 'blank member cells are created', 'member cells missing from the model are not created as blank cells')
-    # reader side
-    am = ctx.mod('ast_nodes')
-    ev = ctx.func('ast_nodes', 'RangeNode.eval')
-    reads = [n for n in walk_local(ev) if isinstance(n, ast.Subscript) and isinstance(n.value, ast.Attribute)
-             and n.value.attr == 'ranges']
-    membership = [n for n in walk_local(ev) if isinstance(n, ast.Compare) and isinstance(n.ops[0], (ast.In, ast.NotIn))
-                  and isinstance(n.comparators[0], ast.Attribute) and n.comparators[0].attr == 'ranges']
-    def _canon(e):
-        # a key held in a renamed parameter of an inlined helper is the same key
-        while isinstance(e, ast.Name):
-            binds = [a for a in walk_local(ev) if isinstance(a, ast.Assign) and any(isinstance(t, ast.Name) and t.id == e.id for t in a.targets)]
-            if len(binds) == 1 and isinstance(binds[0].value, ast.Name):
-                e = binds[0].value
-            else:
-                break
-        return ast.dump(e)
-    keys = {_canon(r.slice) for r in reads} | {_canon(c.left) for c in membership}
-    if not reads or not membership:
-        raise Unmodelled('RangeNode.eval: membership test / read of the range registry not found')
-    ctx.expect(len(keys) == 1, ev, 'range registry read with the tested key',
-               'RangeNode.eval tests membership with one key and reads the registry with another')
-    em = ctx.mod('evaluator')
-    evl = em.func('Evaluator.evaluate')
-    blank = False
-    for n in walk_local(evl):
-        if isinstance(n, ast.If) and any(isinstance(c, ast.Compare) and isinstance(c.ops[0], ast.NotIn)
-                                         and isinstance(c.comparators[0], ast.Attribute) and c.comparators[0].attr == 'cells'
-                                         for c in ast.walk(n.test)):
-            r = [s_ for s_ in n.body if isinstance(s_, ast.Return)]
-            if r and ctx.res.resolve(r[0].value, em) == 'pkg:xlfunctions.func_xltypes:BLANK':
-                blank = True
-    ctx.expect(blank, evl, 'missing cell evaluates to BLANK', 'a cell that is not in the model does not evaluate to BLANK')
-    ctx.floor(6, 'registry writer/reader facts')
+    """The range registry: however a range is written in a formula - unqualified, sheet-qualified, $-absolute, twice, inside
+    another call - the compiled model registers it under the key the evaluation looks it up with, creates its empty member cells,
+    and a reference to a cell the model does not hold is a blank. Decided on a witness workbook compiled and evaluated as written."""
+    from . import workbook as W
+    from . import scenarios as S
+    anchor = ctx.mod('model').func('ModelCompiler.build_ranges')
+    cells = {'A1': 1, 'A2': 2, 'C3': 40, 'B1': '=SUM(A1:A3)', 'B2': '=SUM($A$1:$A$3)', 'B3': '=SUM(Sheet1!A1:A3)', 'B4': '=Z9+1', 'B5': '=COUNTA(A1:A9)',
+             'B6': '=SUM(A1:A3,$A1:A$3)+MAX(Sheet1!$A$1:A3)', 'B7': '=SUM(A1:C3)', 'B8': '=ISBLANK(Z9)', 'B9': '=SUM(Sheet1!$A$1:$C$3)+Y7',
+             'B10': '=A3+1', 'B11': '=SUM(B1:B3)'}
+    want = {'B1': 3, 'B2': 3, 'B3': 3, 'B4': 1, 'B5': 2, 'B6': 8, 'B7': 52, 'B8': True, 'B9': 52, 'B10': 1, 'B11': 9}
+    wb = W.Workbook(ctx, cells)
+    for a, w in want.items():
+        got = wb.value('Sheet1!' + a)
+        ctx.expect(S.same(got, w), anchor, f'range registry: {cells[a]}',
+                   f'{a} = {cells[a]} evaluates to {got!r}, expected {w!r} (A1 = 1, A2 = 2, C3 = 40, B1:B3 = 3 each, everything else empty): a range is registered '
+                   'under the key its evaluation uses, its empty members are blank cells, a cell the model does not hold is a blank')
+    ranges = wb.model.f.get('ranges')
+    keys = sorted(ranges) if isinstance(ranges, dict) else ranges
+    ctx.expect(isinstance(ranges, dict) and all('$' not in k and k.startswith('Sheet1!') for k in ranges), anchor,
+               'range registry keys are qualified and $-free', f'the compiled model registers its ranges under {keys!r}')
+    ctx.floor(12, 'range registry cells')
 
 
 def _range_models():
